@@ -473,8 +473,9 @@ Section Sim.
   Notation sstep := (sstep T libm rty lty diff).
 
   (* the statements covered by the whole-body theorem: assignments (any compound operator over jump-free
-     right-hand sides; ternaries with plain `=`), conditional, counting and unconditional jumps to user labels,
-     labels, interrupts, instruction calls whose arguments need no temporaries *)
+     right-hand sides; ternaries with plain `=`), single-variable declarations with initialiser, scope ends, empty
+     statements, conditional, counting and unconditional jumps to user labels, labels, interrupts, instruction calls
+     whose arguments need no temporaries *)
   Definition wf_stmt (n0 : nat) (st : sstmt) : Prop :=
     match st with
     | SAssign v aop e =>
@@ -487,7 +488,11 @@ Section Sim.
     | SCall opc args =>
         Forall (fun e => wt_pure [] e = true /\ locals_below n0 e = true /\ exists a ta, classify [] e = Simple a ta) args
     | SInterrupt _ => True
-    | SNop | SDecl _ _ | SScopeEnd _ => False
+    | SNop => True
+    | SScopeEnd d => (d < n0)%nat
+    | SDecl ty vars =>
+        exists d e, vars = [(d, Some e)] /\ (d < n0)%nat /\ locals_below n0 e = true /\
+                    (wt_pure [] e = true \/ wt_tern [] e = true)
     end.
 
   Lemma mapM_ext {A B} (f h : A -> outcome B) l : (forall x, In x l -> f x = h x) -> mapM f l = mapM h l.
@@ -535,6 +540,25 @@ Section Sim.
       destruct (assign_e (p_mem (wait t st)) v aop e) as [m1| | |] eqn:Ea; cbn [obind] in Hs; try discriminate.
       inversion Hs; subst m' j lg. cbn [mode_of logged].
       eapply sim_assign; eassumption.
+    - (* SDecl *)
+      destruct Hwf as [d [e [-> [Hd [Hb Hw]]]]]. cbn [LowerProg.sstep LowerProg.stmt_nonan] in Hs, Hnn. cbn [Lower.lower_stmt] in Hl.
+      rewrite wait_mem in Hs, Hnn.
+      set (m1 := update (p_mem st) (VLoc d) (default_of ty0)) in *.
+      destruct (assign_e m1 (mkvar None (VLoc d)) None e) as [m2| | |] eqn:Ea; cbn [obind] in Hs; try discriminate.
+      inversion Hs; subst m' j lg. cbn [mode_of logged].
+      unfold seq, ret in Hl.
+      destruct (lower t mask fuel (CAssignOp (mkvar None (VLoc d)) None e) s) as [[ca sa]| | |] eqn:Ela; try discriminate.
+      inversion Hl; subst c1 s1.
+      assert (Hd' : (d < g s)%nat) by lia.
+      assert (Hw' : wt_pure [] e = true \/ (@None binop = None /\ wt_tern [] e = true)) by (destruct Hw; [left | right]; auto).
+      destruct (sim_assign n0 t mask fuel (mkvar None (VLoc d)) None e s ca sa (set_mem st m1) m2 Hr Ela Hn Ha Hd Hb Hw') as [Hrun [Hg [Ht Hf2]]].
+      + rewrite wait_mem. exact Hnn.
+      + cbn [p_mem set_mem]. apply fresh_upd; [exact Hfr | exact Hd'].
+      + exact Hle.
+      + rewrite wait_mem. exact Ea.
+      + split; [|split; [exact Hg|split; [exact Ht | exact Hf2]]].
+        intros cmp. destruct (Hrun cmp) as [c' E]. exists c'. cbn [app LowerProg.wblk]. rewrite app_nil_r. fold m1. rewrite E.
+        rewrite wait_set_mem, set_mem_set_mem. reflexivity.
     - (* SCondJmp *)
       destruct c as [v|v op|e].
       + destruct Hwf as [Hv Hu]. cbn [LowerProg.sstep] in Hs.
@@ -572,11 +596,23 @@ Section Sim.
       inversion Hs; subst m' j lg. cbn [mode_of logged].
       split; [|split; [lia|split; [apply te_agree_refl_|rewrite wait_mem; exact Hfr]]].
       intros cmp. exists cmp. cbn [LowerProg.wblk]. rewrite Hr. cbn [negb]. rewrite Em, Ev. rewrite set_mem_id. reflexivity.
+    - (* SScopeEnd *)
+      cbn [LowerProg.sstep] in Hs. unfold ret in Hl. inversion Hl; subst c1 s1.
+      assert (Em : m' = update (p_mem st) (VLoc d) (default_of (lty d)) /\ j = None /\ lg = None).
+      { rewrite wait_mem in Hs. split; [|split]; congruence. }
+      destruct Em as [-> [-> ->]]. cbn [mode_of logged]. rewrite (wait_at t st (Hsil eq_refl)).
+      split; [|split; [lia|split; [apply te_agree_refl_|apply fresh_upd; [exact Hfr | lia]]]].
+      intros cmp. exists cmp. reflexivity.
     - (* SInterrupt *)
       cbn [LowerProg.sstep] in Hs. inversion Hs; subst m' j lg. cbn [mode_of logged].
       destruct e; try discriminate. unfold need, instr, ret in Hl. destruct (avail KInterrupt); [|discriminate]. inversion Hl; subst c1 s1.
       split; [|split; [lia|split; [apply te_agree_refl_|rewrite wait_mem; exact Hfr]]].
       intros cmp. exists cmp. cbn [LowerProg.wblk]. rewrite Hr. cbn [negb LowerSem.exec_step]. rewrite set_mem_id. reflexivity.
+    - (* SNop *)
+      cbn [LowerProg.sstep] in Hs. inversion Hs; subst m' j lg. cbn [mode_of logged].
+      unfold ret in Hl. inversion Hl; subst c1 s1. rewrite (wait_at t st (Hsil eq_refl)).
+      split; [|split; [lia|split; [apply te_agree_refl_|exact Hfr]]].
+      intros cmp. exists cmp. rewrite set_mem_id. reflexivity.
   Qed.
 
   Lemma arrive_mem lt jt st : p_mem (arrive lt jt st) = p_mem st.
@@ -593,6 +629,10 @@ Section Sim.
     - destruct Hwf as [Hv _]. destruct (assign_e m v aop e) as [m1| | |] eqn:Ea; cbn [obind] in Hs; try discriminate.
       inversion Hs; subst. destruct (assign_s_shape T libm rty lty diff [] m v aop e m' Ea) as [r ->].
       apply fresh_upd_var; assumption.
+    - destruct Hwf as [d [e [-> [Hd _]]]]. cbn [LowerProg.sstep] in Hs.
+      destruct (assign_e (update m (VLoc d) (default_of ty0)) (mkvar None (VLoc d)) None e) as [m2| | |] eqn:Ea; cbn [obind] in Hs; try discriminate.
+      inversion Hs; subst. destruct (assign_s_shape T libm rty lty diff [] (update m (VLoc d) (default_of ty0)) (mkvar None (VLoc d)) None e m' Ea) as [r ->].
+      cbn [v_id]. apply fresh_upd; [apply fresh_upd; assumption | exact Hd].
     - assert (Hc : forall v op, var_below n0 v -> forall r, count_e T libm rty lty diff m k v op l jt = Ok r -> fresh (fst r) n0).
       { intros v op Hv r Hr. unfold LowerProg.count_e in Hr. destruct (eval_e m (var_expr v)) as [x| | |]; cbn [obind] in Hr; try discriminate.
         destruct x; try discriminate. inversion Hr; subst. cbn [fst]. apply fresh_upd_var; assumption. }
@@ -607,6 +647,8 @@ Section Sim.
     - inversion Hs; subst. exact Hfr.
     - inversion Hs; subst. exact Hfr.
     - destruct (mapM (eval_e m) args); cbn [obind] in Hs; try discriminate. inversion Hs; subst. exact Hfr.
+    - assert (Em : m' = update m (VLoc d) (default_of (lty d))) by congruence. rewrite Em. apply fresh_upd; assumption.
+    - inversion Hs; subst. exact Hfr.
     - inversion Hs; subst. exact Hfr.
   Qed.
 
@@ -616,6 +658,8 @@ Section Sim.
     destruct stmt as [v aop e|ty0 vars|k c l0 jt0|l0 jt0|l0|opc args|d|e|]; cbn [wf_stmt] in Hwf; try contradiction;
       cbn [LowerProg.sstep] in Hs.
     - destruct (assign_e m v aop e); cbn [obind] in Hs; discriminate.
+    - destruct Hwf as [d [e [-> _]]]. cbn [LowerProg.sstep] in Hs.
+      destruct (assign_e _ _ None e); cbn [obind] in Hs; discriminate.
     - assert (Hc : forall v op r, count_e T libm rty lty diff m k v op l0 jt0 = Ok r -> snd r = Some (l, jt) -> l = l0).
       { intros v op r Hr Hj. unfold LowerProg.count_e in Hr. destruct (eval_e m (var_expr v)) as [x| | |]; cbn [obind] in Hr; try discriminate.
         destruct x; try discriminate. inversion Hr; subst. cbn [snd] in Hj. destruct (xorb _ _); inversion Hj. reflexivity. }
@@ -632,33 +676,42 @@ Section Sim.
     - inversion Hs.
     - destruct (mapM (eval_e m) args); cbn [obind] in Hs; discriminate.
     - inversion Hs.
+    - inversion Hs.
+    - inversion Hs.
   Qed.
 
   Notation sseek := (sseek lty).
 
   (* what the code of one statement looks like from outside *)
   Lemma stmt_shape n0 t mask fuel stmt s c1 s1 :
-    lower_stmt t mask fuel stmt s = Ok (c1, s1) -> wf_stmt n0 stmt -> te_agree n0 [] (te s) ->
+    lower_stmt t mask fuel stmt s = Ok (c1, s1) -> wf_stmt n0 stmt -> te_agree n0 [] (te s) -> (n0 <= g s)%nat ->
     (g s <= g s1)%nat /\ te_agree (g s) (te s) (te s1) /\
     (forall m, fresh m (g s) -> seek_mem lty c1 m = sseek stmt m) /\
     Forall (at_time t mask) c1 /\ (is_silent stmt = false -> touches c1) /\
     match stmt with SLabel l => c1 = [LLabel t l] | _ => labels_in (g s) (g s1) c1 end.
   Proof.
-    intros Hl Hwf Ha.
+    intros Hl Hwf Ha Hn.
     assert (Hone : forall i, Ok ([LInstr t mask i], s) = Ok (c1, s1) ->
               (g s <= g s1)%nat /\ te_agree (g s) (te s) (te s1) /\ (forall m, fresh m (g s) -> seek_mem lty c1 m = m) /\
               Forall (at_time t mask) c1 /\ touches c1 /\ labels_in (g s) (g s1) c1).
     { intros i H. inversion H; subst. split; [lia|]. split; [apply te_agree_refl_|]. split; [intros; reflexivity|].
       split; [repeat constructor|]. split; [reflexivity | repeat constructor]. }
-    assert (Hlow : forall c, lower t mask fuel c s = Ok (c1, s1) ->
+    assert (Hlow : forall c c1 s1, lower t mask fuel c s = Ok (c1, s1) ->
               (g s <= g s1)%nat /\ te_agree (g s) (te s) (te s1) /\ (forall m, fresh m (g s) -> seek_mem lty c1 m = m) /\
               Forall (at_time t mask) c1 /\ touches c1 /\ labels_in (g s) (g s1) c1).
-    { intros c H. destruct (lower_shape avail auto_casts rty lty t mask fuel c s c1 s1 H) as [G [L [N A]]].
+    { clear. intros c c1 s1 H. destruct (lower_shape avail auto_casts rty lty t mask fuel c s c1 s1 H) as [G [L [N A]]].
       split; [exact G|]. split; [exact A|]. split; [exact N|]. split; [eapply lower_times; exact H|].
       split; [eapply lower_touches; exact H | exact L]. }
     destruct stmt as [v aop e|ty0 vars|k c l jt|l jt|l|opc args|d|e|]; cbn [wf_stmt] in Hwf; try contradiction;
       cbn [Lower.lower_stmt] in Hl; cbn [LowerProg.sseek is_silent].
-    - destruct (Hlow _ Hl) as [G [A [N [Ht [Hx L]]]]]. auto 8.
+    - destruct (Hlow _ _ _ Hl) as [G [A [N [Ht [Hx L]]]]]. auto 8.
+    - destruct Hwf as [d [e [-> [Hd _]]]]. cbn [Lower.lower_stmt] in Hl. unfold seq, ret in Hl.
+      destruct (lower t mask fuel (CAssignOp (mkvar None (VLoc d)) None e) s) as [[ca sa]| | |] eqn:Ela; try discriminate.
+      inversion Hl; subst c1 s1. destruct (Hlow _ _ _ Ela) as [G [A [N [Ht [Hx L]]]]]. rewrite app_nil_r.
+      split; [exact G|]. split; [exact A|].
+      split; [intros m Hm; cbn [app LowerShape.seek_mem fold_left fst]; apply N; apply fresh_upd; [exact Hm | lia]|].
+      split; [constructor; [exact I | exact Ht]|]. split; [intros _; apply (touches_app_r [LAlloc d ty0] ca Hx)|].
+      constructor; [exact I | exact L].
     - assert (Hc : forall v op, lower_count_jump t mask k v op l jt s = Ok (c1, s1) ->
                 (g s <= g s1)%nat /\ te_agree (g s) (te s) (te s1) /\ (forall m, fresh m (g s) -> seek_mem lty c1 m = m) /\
                 Forall (at_time t mask) c1 /\ (false = false -> touches c1) /\ labels_in (g s) (g s1) c1).
@@ -667,14 +720,18 @@ Section Sim.
       destruct c as [v|v op|e].
       + eapply Hc. exact Hl.
       + destruct op; try discriminate; eapply Hc; exact Hl.
-      + destruct (Hlow _ Hl) as [G [A [N [Ht [Hx L]]]]]. auto 8.
+      + destruct (Hlow _ _ _ Hl) as [G [A [N [Ht [Hx L]]]]]. auto 8.
     - unfold need, instr, ret in Hl. destruct (avail KJmp); [|discriminate]. destruct (Hone _ Hl) as [G [A [N [Ht [Hx L]]]]]. auto 8.
     - unfold ret in Hl. inversion Hl; subst. split; [lia|]. split; [apply te_agree_refl_|]. split; [intros; reflexivity|].
       split; [repeat constructor|]. split; [intros _; reflexivity | reflexivity].
     - destruct (lower_args_simple n0 t mask fuel s Ha args Hwf) as [la [El _]]. rewrite El in Hl. cbn [app map rev] in Hl.
       destruct (Hone _ Hl) as [G [A [N [Ht [Hx L]]]]]. auto 8.
+    - unfold ret in Hl. inversion Hl; subst. split; [lia|]. split; [apply te_agree_refl_|]. split; [intros; reflexivity|].
+      split; [repeat constructor|]. split; [discriminate | repeat constructor].
     - destruct e; try discriminate. unfold need, instr, ret in Hl. destruct (avail KInterrupt); [|discriminate].
       destruct (Hone _ Hl) as [G [A [N [Ht [Hx L]]]]]. auto 8.
+    - unfold ret in Hl. inversion Hl; subst. split; [lia|]. split; [apply te_agree_refl_|]. split; [intros; reflexivity|].
+      split; [constructor|]. split; [discriminate | constructor].
   Qed.
 
   Notation lower_body := (lower_body avail auto_casts rty lty).
@@ -696,7 +753,9 @@ Section Sim.
 
   Lemma sseek_fresh n0 stmt m : wf_stmt n0 stmt -> fresh m n0 -> fresh (sseek stmt m) n0.
   Proof.
-    intros Hwf Hfr. destruct stmt; cbn [wf_stmt] in Hwf; try contradiction; cbn [LowerProg.sseek]; exact Hfr.
+    intros Hwf Hfr. destruct stmt; cbn [wf_stmt] in Hwf; try contradiction; cbn [LowerProg.sseek]; try exact Hfr.
+    - destruct Hwf as [d [e [-> [Hd _]]]]. cbn [fold_left fst]. apply fresh_upd; assumption.
+    - apply fresh_upd; assumption.
   Qed.
 
   (* one pass over the body (from any statement boundary, executing or seeking a user label) *)
@@ -710,7 +769,7 @@ Section Sim.
       intros cmp. exists cmp. reflexivity.
     - destruct (lower_body_cons fuel t mask stmt rest s code s' Hl) as [c1 [s1 [c2 [Hl1 [Hl2 ->]]]]].
       pose proof (Forall_inv Hwf) as Hw1. cbn [snd] in Hw1. pose proof (Forall_inv_tail Hwf) as Hwf'.
-      destruct (stmt_shape n0 t mask fuel stmt s c1 s1 Hl1 Hw1 Ha) as [G [A [N [Hat [Htouch L]]]]].
+      destruct (stmt_shape n0 t mask fuel stmt s c1 s1 Hl1 Hw1 Ha Hn) as [G [A [N [Hat [Htouch L]]]]].
       assert (Hn1 : (n0 <= g s1)%nat) by lia.
       assert (Ha1 : te_agree n0 [] (te s1)).
       { intros d Hd. rewrite (A d) by lia. apply Ha. exact Hd. }
@@ -780,7 +839,7 @@ Section Sim.
     - cbn in Hl. inversion Hl. reflexivity.
     - destruct (lower_body_cons fuel t mask stmt rest s code s' Hl) as [c1 [s1 [c2 [Hl1 [Hl2 ->]]]]].
       pose proof (Forall_inv Hwf) as Hw1. cbn [snd] in Hw1. pose proof (Forall_inv_tail Hwf) as Hwf'.
-      destruct (stmt_shape n0 t mask fuel stmt s c1 s1 Hl1 Hw1 Ha) as [G [A [N [Hat [Htouch L]]]]].
+      destruct (stmt_shape n0 t mask fuel stmt s c1 s1 Hl1 Hw1 Ha Hn) as [G [A [N [Hat [Htouch L]]]]].
       assert (Ha1 : te_agree n0 [] (te s1)).
       { intros d Hd. rewrite (A d) by lia. apply Ha. exact Hd. }
       cbn [existsb]. rewrite existsb_app. rewrite (IH s1 c2 s' Hl2 Hwf' Ha1) by lia. f_equal.
